@@ -48,17 +48,20 @@ CalcOutcomeAllowed(s, st) ==
     IF Matched(s) THEN st = "calculated"
     ELSE IF CheckedAtCalculate(s) THEN st = "rejected"
     ELSE st \in {"calculated", "rejected"}       \* one-column file of the wrong length: at the latest at Build / Evaluate
+\* after a System was built the user may still evaluate the source object held by the System (stage stays "built" /
+\* "evaluated"): building PRISM objects must not have touched the stored values
 Calculate ==
-    /\ stage \in {"constructed", "calculated"}
+    /\ stage \in {"constructed", "calculated", "built", "evaluated"}
     /\ \E st \in {"calculated", "rejected"} :
           /\ CalcOutcomeAllowed(src, st)
-          /\ stage' = st
+          /\ stage' = IF st = "calculated" /\ stage \in {"built", "evaluated"} THEN stage ELSE st
           /\ last' = [act |-> "Calculate", ret |-> IF st = "calculated" THEN "verbatim" ELSE "raises"]
     /\ UNCHANGED <<src, dom, rank, mutated, regridded>>
 
 \* System.createPRISM evaluates every omega on the domain's k and exports the table
+\* (parameter sweeps call it again and again on the same System: every PRISM object gets the same verbatim values)
 Build ==
-    /\ stage \in {"constructed", "calculated"}
+    /\ stage \in {"constructed", "calculated", "built", "evaluated"}
     /\ \E st \in {"built", "rejected"} :
           /\ IF Matched(src) THEN st = "built" ELSE IF CheckedAtCalculate(src) THEN st = "rejected" ELSE TRUE
           /\ stage' = st
@@ -95,5 +98,5 @@ RejectStage == (stage \in {"calculated", "built"} /\ ~Matched(src)) => src.origi
 MatchedNeverRejected == Matched(src) => stage # "rejected"
 \* whenever a call completes on matching data it hands out the stored values verbatim (bit for bit, in order);
 \* the harness compares with the data the source was constructed from, also after MutateCaller (NoLeakFromCaller)
-VerbatimOnMatch == (last.act \in {"Calculate", "Build"} /\ stage \in {"calculated", "built"} /\ Matched(src)) => last.ret = "verbatim"
+VerbatimOnMatch == (last.act \in {"Calculate", "Build"} /\ stage \in {"calculated", "built", "evaluated"} /\ Matched(src)) => last.ret = "verbatim"
 =============================================================================
